@@ -324,7 +324,16 @@ pub fn generate(ctx: &mut Ctx) {
                         3 => { // explicit version 1
                             let c = roa_content(asid, &v4, &v6); let (h, n) = der::split_tlv(&c).unwrap();
                             der::seq(&[der::ctx(0, true, &der::uint_u64(1)), c[h..h + n].to_vec()]) }
-                        _ => { let mut c = roa_content(asid, &v4, &v6); let n = c.len(); c[n - 1] ^= 0x01; if n < 128 { c } else { roa_content(asid, &v4, &v6) } }
+                        _ => {
+                            // flip the lowest bit of the last octet -- unless that is a significant bit of the last prefix (a whole
+                            // number of octets, no maxLength after it): that would be another well-formed ROA, not an off-profile one,
+                            // and the ranges recorded above would no longer be what the content says
+                            let last = v6.last().or(v4.last()).copied();
+                            let prefix_bit = matches!(last, Some((_, l, None)) if l % 8 == 0 && l > 0);
+                            let mut c = roa_content(asid, &v4, &v6); let n = c.len();
+                            if !prefix_bit && n < 128 { c[n - 1] ^= 0x01; }
+                            c
+                        }
                     }
                 } else { roa_content(asid, &v4, &v6) };
                 (pki::CT_ROA.to_vec(), content)
